@@ -67,28 +67,42 @@ def _bond_pos(bonds, b):
     return 0
 
 
+FORMS = ("atom", "index", "label")      # the AtomLike forms the API documents (Element = "first atom of that element" is
+                                        # ambiguous on a graph and is not used); labels are unique by construction
+
+
+def atomlike(atoms, a, form):
+    """Interpretation of the abstract atom a (1-based position) as an argument of the public API."""
+    if form == "index":
+        return a - 1                    # NB: the first atom is the integer 0
+    if form == "label":
+        return atoms[a - 1].label
+    return atoms[a - 1]
+
+
 def run_query(obj, atoms, bonds, q, hooks=None):
     """Perform one real query; returns the trace event.  An exception becomes an event no action explains."""
     pos = {a: i + 1 for i, a in enumerate(atoms)}
     try:
         if q["q"] == "bfs":
-            s = atoms[q["s"] - 1]
-            args = (s,) if not q["d"] else (s, atoms[q["d"] - 1])
+            fs, fd = q.get("fs", "atom"), q.get("fd", "atom")
+            s = atomlike(atoms, q["s"], fs)
+            args = (s,) if not q["d"] else (s, atomlike(atoms, q["d"], fd))
             if q["api"] == "bfsd":
                 y = [[pos.get(a, 0), int(k)] for a, k in obj.yield_bfsd(*args)]
             else:
                 y = [[pos.get(a, 0), 0] for a in obj.yield_bfs(*args)]
-            return {"ev": "bfs", "api": q["api"], "s": q["s"], "d": q["d"], "y": y}
+            return {"ev": "bfs", "api": q["api"], "s": q["s"], "d": q["d"], "y": y, "fs": fs, "fd": fd if q["d"] else "none"}
         if q["q"] == "ring":
             r = obj.is_bond_in_ring(bonds[q["b"] - 1])
             return {"ev": "ring", "b": q["b"], "res": bool(r)}
         if q["q"] == "local":
-            a = atoms[q["a"] - 1]
-            nbrs = [pos.get(x, 0) for x in obj.connected_atoms(a)]
-            bl = [_bond_pos(bonds, b) for b in obj.bonds_with_atom(a)]
-            v = 2.0 * float(obj.bonded_valence(a))
+            fa = q.get("fa") or ("atom", "atom", "atom")        # one form per accessor
+            nbrs = [pos.get(x, 0) for x in obj.connected_atoms(atomlike(atoms, q["a"], fa[0]))]
+            bl = [_bond_pos(bonds, b) for b in obj.bonds_with_atom(atomlike(atoms, q["a"], fa[1]))]
+            v = 2.0 * float(obj.bonded_valence(atomlike(atoms, q["a"], fa[2])))
             return {"ev": "local", "a": q["a"], "nbrs": nbrs, "bonds": bl,
-                    "v2": int(round(v)) if abs(v - round(v)) < 1e-9 else -1}
+                    "v2": int(round(v)) if abs(v - round(v)) < 1e-9 else -1, "fa": list(fa)}
         if q["q"] == "match":
             pobj, patoms, _ = build(q["pat"], "Connectivity")
             if q["api"] == "match":
@@ -167,18 +181,24 @@ def adjacency(case):
 
 
 def traversal_queries(case, rnd, *, starts=None, both_apis=True):
-    """Every start (or the given ones) x no direction and every neighbour as direction; every bond; every atom."""
+    """Every start (or the given ones) x no direction and every neighbour as direction; every bond; every atom.
+    The form in which an atom is passed (Atom object / integer index / label) rotates through all 9 (start,
+    direction) combinations from a per-graph offset, so that over the enumerated graphs every atom - the first
+    one, whose index is 0, included - is passed in every form in every role."""
     adj = adjacency(case)
     qs = []
+    c = rnd.randrange(9)
     for s in (starts if starts is not None else range(1, case["n"] + 1)):
         for d in [0] + sorted(adj[s]):
             apis = ("bfsd", "bfs") if both_apis else (rnd.choice(("bfsd", "bfsd", "bfs")),)
             for api in apis:
-                qs.append({"q": "bfs", "api": api, "s": s, "d": d})
+                qs.append({"q": "bfs", "api": api, "s": s, "d": d, "fs": FORMS[c % 3], "fd": FORMS[(c // 3) % 3]})
+                c += 1
     for i in range(1, len(case["bonds"]) + 1):
-        qs.append({"q": "ring", "b": i})
+        qs.append({"q": "ring", "b": i})            # is_bond_in_ring takes a Bond object only
     for a in range(1, case["n"] + 1):
-        qs.append({"q": "local", "a": a})
+        qs.append({"q": "local", "a": a, "fa": [FORMS[(c + k) % 3] for k in range(3)]})
+        c += 1
     return qs
 
 
@@ -382,12 +402,12 @@ def mutants():
     import networkx as nx
     C = mc.Connectivity
 
-    def bfsd(lifo=False, mark_start=True, mark_dir=True, k0=1):
+    def bfsd(lifo=False, mark_start=True, mark_dir=True, k0=1, falsy=False):
         def yield_bfsd(self, _start, _direction=None):
             start = self.get_atom(_start)
             visited = {start} if mark_start else set()
             queue = deque()
-            if _direction is None:
+            if (not _direction) if falsy else (_direction is None):
                 queue.append((start, 0))
             else:
                 direction = self.get_atom(_direction)
@@ -430,7 +450,8 @@ def mutants():
 
     out = {}
     for name, f in (("LIFO", bfsd(lifo=True)), ("StartNotVisited", bfsd(mark_start=False)),
-                    ("DirectionNotExcluded", bfsd(mark_dir=False)), ("DirectionAtZero", bfsd(k0=0))):
+                    ("DirectionNotExcluded", bfsd(mark_dir=False)), ("DirectionAtZero", bfsd(k0=0)),
+                    ("DirectionIndex0IsNone", bfsd(falsy=True))):
         out[name] = {"yield_bfsd": f, "yield_bfs": bfs_from(f)}
     out["RingThroughBond"] = {"is_bond_in_ring": ring_through_bond}
     out["NonInducedMatch"] = {"match": match_mono}
